@@ -8,6 +8,7 @@ import (
 	"reflect"
 	"strconv"
 	"strings"
+	"sync"
 
 	"github.com/uber-go/gopatch/internal/goast"
 )
@@ -15,6 +16,28 @@ import (
 // VerifDump writes the snapshot value as an S-expression for the model
 // driver (injected with -overlay by /verif; not part of the repository).
 func (s *Snapshot) VerifDump(sb *strings.Builder) { verifDumpValue(sb, s.value) }
+
+// the objects that non-nil pointers point to, numbered in the order the dumps meet them: the same number in two
+// snapshots means one and the same AST node object (the field is read by name, so that a tree without it still builds)
+var (
+	verifAddrMu  sync.Mutex
+	verifAddrIDs = map[uint64]int{}
+)
+
+func verifObjectID(v *value) string {
+	f := reflect.ValueOf(v).Elem().FieldByName("addr")
+	if !f.IsValid() || !f.CanUint() || f.Uint() == 0 {
+		return ""
+	}
+	verifAddrMu.Lock()
+	defer verifAddrMu.Unlock()
+	id, ok := verifAddrIDs[f.Uint()]
+	if !ok {
+		id = len(verifAddrIDs) + 1
+		verifAddrIDs[f.Uint()] = id
+	}
+	return "@" + strconv.Itoa(id)
+}
 
 func verifDumpValue(sb *strings.Builder, v *value) {
 	kind := 4
@@ -40,6 +63,8 @@ func verifDumpValue(sb *strings.Builder, v *value) {
 		}
 	} else if kind == 4 && !v.isNil {
 		payload = fmt.Sprintf("%v", v.value)
+	} else if kind == 0 && !v.isNil {
+		payload = verifObjectID(v)
 	}
 	b2i := func(b bool) int {
 		if b {
